@@ -1,2 +1,4 @@
 pub mod unit;
 mod api;
+#[cfg(feature = "verif-hooks")]
+pub mod verif;
